@@ -19,6 +19,8 @@ CFG_SLOTS = {"max_incomplete": 64, "auth_timeout": 120000, "max_message_size": M
              "extra_limits": {"max_connections_per_user": 7, "max_match_rules_per_connection": 4}}    # 4 bystanders + 3 hostile slots
 CFG_ACT = {"max_incomplete": 64, "auth_timeout": 120000, "max_message_size": MAXMSG, "fresh_daemon": 1, "services": 1,
            "extra_limits": {"service_start_timeout": 900}}     # c10.act.fail exits 1 after 300 ms, c10.act.hang never claims its name
+CFG_THROTTLE = {"max_incomplete": 64, "auth_timeout": 120000, "max_message_size": MAXMSG, "fresh_daemon": 1,
+                "extra_limits": {"max_incoming_bytes": 300000}}        # the bus stops reading from a client whose undelivered messages exceed this
 FIRST_UNIQUE = 4          # on a fresh daemon of the run: :1.0 monitor, :1.1/:1.2 the pair, :1.3 the observer
 CFG_QUOTA = {"max_incomplete": 64, "auth_timeout": 120000, "max_message_size": MAXMSG, "extra_limits": {"max_outgoing_bytes": 200000}}
 
@@ -750,6 +752,25 @@ def gen_activation(rnd, shape=None):
     return d
 
 
+def gen_throttle(rnd, order=None):
+    """flood until the bus stops reading (max_incoming_bytes = 300000 reached: the messages are queued for a recipient that never reads),
+    then abrupt closes in some order; also with the sender as its own recipient"""
+    s = Script("throttle", CFG_THROTTLE, rnd)
+    a, b = s.conn(), s.conn()
+    ev = []
+    for c in (a, b):
+        ev += ["C%d" % c, "W%d:%s" % (c, (AUTH_OK + hello().encode()).hex())]
+    selfsend = rnd.random() < 0.25
+    dest = ":1.%d" % (FIRST_UNIQUE + (0 if selfsend else 1))
+    size = rnd.choice((2000, 12000, 30000))
+    payload = Msg(SIGNAL, 0, 7, {F_PATH: "/t", F_INTERFACE: "c10.T", F_MEMBER: "S", F_DESTINATION: dest}, "s", ("t" * size,)).encode()
+    order = order or rnd.choice(([a, b], [a, b], [b, a], [a]))
+    d = s.done(ev)
+    d["fresh"] = True
+    d["throttle"] = {"sender": a, "recipient": a if selfsend else b, "payload": payload.hex(), "close_order": order, "max_bytes": 6000000}
+    return d
+
+
 def hand_written():
     """boundary scenarios (also kept in corpus/C10)"""
     rnd = random.Random(0)
@@ -798,7 +819,7 @@ def hand_written():
 FAMILIES = [(gen_mutation, 30), (gen_limits, 8), (gen_truncate, 10), (gen_handshake, 14), (gen_prehello, 10), (gen_oversized, 4), (gen_many_unauth, 8)]
 
 
-def generate(rnd, n_plain, n_flood, n_timed, n_blast=0, n_close=0, n_slots=0, n_act=0):
+def generate(rnd, n_plain, n_flood, n_timed, n_blast=0, n_close=0, n_slots=0, n_act=0, n_throttle=0):
     scripts = hand_written()
     tot = sum(w for _, w in FAMILIES)
     for _ in range(n_plain):
@@ -825,4 +846,6 @@ def generate(rnd, n_plain, n_flood, n_timed, n_blast=0, n_close=0, n_slots=0, n_
         scripts.append(gen_slots(rnd))
     for _ in range(n_act):
         scripts.append(gen_activation(rnd))
+    for i in range(n_throttle):
+        scripts.append(gen_throttle(rnd, None))
     return scripts
